@@ -131,12 +131,15 @@ def specC05Sound (cfg : Cfg) (env : Env) (r : Response) (out : Outcome) : Bool :
         | none => true))
   | _ => true
 
-/-- Strictly inside every window. -/
+/-- Strictly inside every skew-extended window (`now < NotOnOrAfter + skew`, `NotBefore − skew < now`,
+    IssueInstant less than a day plus skew away), and no window inverted (`NotBefore ≤ NotOnOrAfter`).
+    The single second `now = bound ± skew`, which the code still accepts, is left out: unspecified. -/
 def strictlyInside (cfg : Cfg) (env : Env) (r : Response) : Bool :=
   let inside (nb nooa : Option Int) : Bool :=
-    (match nooa with | some t => decide (env.now < t) | none => true) &&
-    (match nb with | some t => decide (t < env.now) | none => true)
-  decide (env.now - r.issueInstant < 86400) && decide (r.issueInstant - env.now < 86400) &&
+    (match nooa with | some t => decide (env.now < t + cfg.skew) | none => true) &&
+    (match nb with | some b => decide (b < env.now + cfg.skew) | none => true) &&
+    (match nb, nooa with | some b, some t => decide (b ≤ t) | _, _ => true)
+  decide (env.now - r.issueInstant < 86400 + cfg.skew) && decide (r.issueInstant - env.now < 86400 + cfg.skew) &&
   (visible r).all fun a =>
     (match a.conditions with | none => true | some c => inside c.nb c.nooa) &&
     (a.authn.all fun s => inside none s.sessionNooa) &&
